@@ -16,6 +16,7 @@ A harness = one bounded-model-checking query:
 
 Q = ('quick', 'thorough')
 T = ('thorough',)
+X = ('extended',)
 
 
 def H(name, call, tiers=Q, timeout=600, mem_gb=8, **kw):
@@ -600,8 +601,12 @@ for reg, rn in ((0, 'npc'), (1, 'eqr'), (2, 'spc')):
                           tiers=(Q if (reg == 1 or not image) else T), timeout=3600, mem_gb=6, unwind=3, stubs=_LIBM,
                           inputs=[('lon', 'f64'), ('lat', 'f64')], replay='c17_native', covers=['second turn', 'pole or equator'],
                           domain='proj: every double lon %s in [-25.2, 25.2], every lat of the %s region: range, sign%s' % ('< 0' if neg else '>= 0', rn, ', image facets' if image else '')))
+        _c17.append(H('c17_proj_formula_' + sfx, 'k_c17_proj_formula(%d, %s);' % (reg, 'true' if neg else 'false'), tiers=Q, timeout=2400, mem_gb=6, unwind=3,
+                      stubs=_LIBM + [('crate::pm1_offset_decompose', 'crate::verif_c17::stub_pm1_offset_decompose')], inputs=[('lon', 'f64'), ('lat', 'f64')], replay='c17_native',
+                      covers=['second turn'],
+                      domain='proj, %s region, lon %s: x, y are the Calabretta-Roukema expressions of (pm1, offset, lat) for ANY (pm1, offset) allowed by the decomposition contract' % (rn, '< 0' if neg else '>= 0')))
         for turn in range(4):
-            _c17.append(H('c17_proj_ref_%s_t%d' % (sfx, turn), 'k_c17_proj_ref(%d, %s, %d);' % (reg, 'true' if neg else 'false', turn), tiers=Q if reg == 1 else T, timeout=2400, mem_gb=6, unwind=3,
+            _c17.append(H('c17_proj_ref_%s_t%d' % (sfx, turn), 'k_c17_proj_ref(%d, %s, %d);' % (reg, 'true' if neg else 'false', turn), tiers=X, timeout=3600, mem_gb=6, unwind=3,
                           stubs=_LIBM, inputs=[('lon', 'f64'), ('lat', 'f64')], replay='c17_native', covers=['last quarter of the turn'] + (['polar product clause reached'] if reg != 1 else []),
                           domain='proj: |lon| * 4/pi in [%d, %s: agreement with the reference formulae within 2^-46 (polar caps: y for every position, x for cosines with <= 6 significant bits)' % (8 * turn, '%d)' % (8 * turn + 8) if turn < 3 else '32.09]')))
 for row in range(4):
@@ -609,6 +614,12 @@ for row in range(4):
         _c17.append(H('c17_base_cell_r%d_q%d' % (row, q), 'k_c17_base_cell(%d, %d);' % (row, q), tiers=Q, timeout=2400, mem_gb=6, unwind=3,
                       inputs=[('x', 'f64'), ('y', 'f64')], replay='c17_base_cell', covers=['negative x', 'facet centre line'],
                       domain='base_cell_from_proj_coo: every double image point with y in row %d of 4 and x (mod 8) in [%d, %d)' % (row, 2 * q, 2 * q + 2)))
+_c17.append(H('c17_proj_arg', 'k_c17_proj_arg();', tiers=Q, timeout=1800, mem_gb=6, unwind=3,
+              stubs=_LIBM + [('crate::pm1_offset_decompose', 'crate::verif_c17::stub_pm1_offset_decompose')], inputs=[('lon', 'f64')], replay='c17_native', replay_const={'lat': 0.25},
+              covers=['second turn', 'negative longitude'],
+              domain='proj: the value handed to pm1_offset_decompose is bit-identical to |lon| * 4/pi: every lon in [-25.2, 25.2] with at most 13 significant bits'))
+_c17.append(H('c17_pm1', 'k_c17_pm1();', tiers=Q, timeout=1200, mem_gb=6, unwind=3, inputs=[('xs', 'f64')], replay='c17_pm1', covers=['xs = 8', 'fourth turn'],
+              domain='pm1_offset_decompose (real code): every double in [0, 32.1]'))
 _c17 += [
     H('c17_unproj', 'k_c17_unproj();', tiers=Q, timeout=2400, mem_gb=8, unwind=3, stubs=_LIBM, inputs=[('x', 'f64'), ('y', 'f64')], replay='c17_native_plane',
       covers=['next to the north pole, negative x', 'south transition'], domain='unproj: every double (x, y) in [-8, 8] x [-2, 2]: range and sign'),
@@ -675,6 +686,8 @@ PROPS['C06'] = dict(
 
 # ------------------------------------------------------------------------------------------- C11 (RING, any nside; plane cut)
 _PLANE_CUT = lambda mod: [('crate::proj', 'crate::ring::%s::stub_proj' % mod), ('crate::unproj', 'crate::ring::%s::stub_unproj' % mod)]
+import os as _os
+_C11_ROLE = _os.environ.get('VERIF_C11_ROLE', '0')   # 0 = complement of the role of the open finding F4; 255 = every image point
 _c11 = []
 for ns in (1, 2, 3, 4, 5, 6, 7, 8, 13, 100, 1000003, (1 << 29) - 1, 1 << 29):
     small = ns <= 13
@@ -682,7 +695,7 @@ for ns in (1, 2, 3, 4, 5, 6, 7, 8, 13, 100, 1000003, (1 << 29) - 1, 1 << 29):
     for band, bn in ((0, 'npc'), (1, 'eqr'), (2, 'spc')):
         # nside 1, 2: one harness per latitude band (quick); other nside: additionally split by base-cell column (thorough)
         for quad in ((255,) if ns <= 2 else (0, 1, 2, 3)):
-            _c11.append(H('c11_point_%s_n%d%s' % (bn, ns, '' if quad == 255 else '_q%d' % quad), 'k_c11_point(%d, 0, %d, %d);' % (ns, band, quad),
+            _c11.append(H('c11_point_%s_n%d%s' % (bn, ns, '' if quad == 255 else '_q%d' % quad), 'k_c11_point(%d, %s, %d, %d);' % (ns, _C11_ROLE, band, quad),
                           tiers=(Q if ns <= 2 else T), timeout=2400, mem_gb=8, unwind=3, stubs=_PLANE_CUT('verif_c11'),
                           inputs=[('x', 'f64'), ('y', 'f64')], replay='c11_pullback', replay_const={'nside': ns},
                           covers=['last base cell column', 'first base cell column'] if quad == 255 else ['east part of the column', 'west part of the column'],
@@ -716,7 +729,7 @@ PROPS['C11'] = dict(
 # ------------------------------------------------------------------------------------------- C03 (plane cut)
 _PLANE_CUT_N = lambda mod: [('crate::proj', 'crate::nested::%s::stub_proj' % mod), ('crate::unproj', 'crate::nested::%s::stub_unproj' % mod)]
 def _c03_us(d):
-    return {'verif_common::*': max(6, d + 1), 'nested::verif_c03::*': 6, 'compass_point::*': 6}
+    return {'verif_common::*': max(6, d + 1), 'nested::verif_c03::*': 6, 'compass_point::*': 6, 'nested::Layer::vertices_map#*': 6}
 
 
 _c03 = []
@@ -732,10 +745,16 @@ for _d in range(30):
                   replay_const={'depth': _d, 'dxk': 512, 'dyk': 512}, covers=['last grid point', 'first path point, clockwise'],
                   domain='depth %d: every cell, every point of the 12-point edge path (both directions, 4 starting vertices) and of the 3x3 grid' % _d))
     for band, bn in ((0, 'npc'), (1, 'eqr'), (2, 'spc')):
-        _c03.append(H('c03_image_%s_d%d' % (bn, _d), 'k_c03_image(%d, %d);' % (_d, band), tiers=Q if _d in (0, 1) else T, timeout=3000, mem_gb=16, unwind=4,
-                      unwindset=_c03_us(_d), stubs=_PLANE_CUT_N('verif_c03'), inputs=[('x', 'f64'), ('y', 'f64')], replay='c03_pullback', replay_const={'depth': _d},
-                      covers=['x = 4 (seam or base cell corner line)', 'x = 8'],
-                      domain='depth %d: every double point of the HEALPix image (x in [0, 8]) with y in the %s band' % (_d, bn)))
+        for b in ((0, 1, 2, 3) if band == 0 else (8, 9, 10, 11) if band == 2 else range(12)):
+            _c03.append(H('c03_image_%s_b%d_d%d' % (bn, b, _d), 'k_c03_image(%d, %d, %d);' % (_d, band, b), tiers=Q if _d in (0, 1) else T, timeout=2400, mem_gb=10, unwind=4,
+                          unwindset=_c03_us(_d), stubs=_PLANE_CUT_N('verif_c03'), inputs=[('x', 'f64'), ('y', 'f64')], replay='c03_pullback', replay_const={'depth': _d},
+                          covers=['a point of the band is mapped to the base cell', 'on a base cell corner / centre line'],
+                          domain='depth %d: every double point of the HEALPix image (x in [0, 8]) with y in the %s band that hash_with_dxdy maps into base cell %d' % (_d, bn, b)))
+        if band != 1:
+            # complement class of a polar band (expected empty; no reachability witness required): makes the split exhaustive
+            _c03.append(H('c03_image_%s_other_d%d' % (bn, _d), 'k_c03_image(%d, %d, 255);' % (_d, band), tiers=Q if _d in (0, 1) else T, timeout=2400, mem_gb=10, unwind=4,
+                          unwindset=_c03_us(_d), stubs=_PLANE_CUT_N('verif_c03'), inputs=[('x', 'f64'), ('y', 'f64')], replay='c03_pullback', replay_const={'depth': _d},
+                          covers=[], domain='depth %d: %s band, points mapped to a base cell outside the cap (expected: none)' % (_d, bn)))
 for _d in range(30):
     for band, bn in ((0, 'npc'), (1, 'eqr'), (2, 'spc')):
         _c03.append(H('c03_range_%s_d%d' % (bn, _d), 'k_c03_range(%d, %d);' % (_d, band), tiers=Q if _d in (0, 1, 29) else T, timeout=1200, mem_gb=6, unwind=4,
@@ -763,19 +782,23 @@ PROPS['C03'] = dict(
 _c19 = []
 for _d in range(30):
     for reg in (0, 1):
-        tq = Q if _d in (0, 1, 2, 3, 29) else T
-        _c19.append(H('c19_%s_d%d' % ('any' if reg == 0 else 'corner', _d), 'k_c19_cell(%d, %d);' % (_d, reg), tiers=tq, timeout=2400, mem_gb=10,
-                      unwind=4, unwindset={'verif_common::*': max(6, _d + 1), 'nested::verif_c19::*': 10, 'compass_point::*': 10},
-                      stubs=[('crate::nested::Layer::hash_with_dxdy', 'crate::nested::verif_c19::stub_hash_with_dxdy')],
-                      inputs=[('h', 'u64'), ('a', 'u16'), ('b', 'u16')], replay='c19_cell',
-                      replay_const={'depth': _d}, covers=['north quadrant', 'west quadrant', 'cell centre'],
-                      domain='depth %d: every cell%s x every offset pair (a/256, b/256), a, b in 0..=256' % (_d, '' if reg == 0 else ' lacking a S / E / N / W neighbour')))
+        for bits in (4, 8):
+            # 17 x 17 lattice: quick at depths 0, 1, 2, 29; 257 x 257 lattice: thorough (20-40 min per harness)
+            tq = (Q if _d in (0, 1, 2, 29) else T) if bits == 4 else T
+            _c19.append(H('c19_%s_d%d%s' % ('any' if reg == 0 else 'corner', _d, '' if bits == 4 else '_fine'), 'k_c19_cell(%d, %d, %d);' % (_d, reg, bits), tiers=tq,
+                          timeout=2400 if bits == 4 else 3600, mem_gb=10,
+                          unwind=4, unwindset={'verif_common::*': max(6, _d + 1), 'nested::verif_c19::*': 10, 'compass_point::*': 10},
+                          stubs=[('crate::nested::Layer::hash_with_dxdy', 'crate::nested::verif_c19::stub_hash_with_dxdy')],
+                          inputs=[('h', 'u64'), ('a', 'u16'), ('b', 'u16')], replay='c19_cell',
+                          replay_const={'depth': _d}, covers=['north quadrant', 'west quadrant', 'cell centre'],
+                          domain='depth %d: every cell%s x every offset pair (a/%d, b/%d), a, b in 0..=%d' % (
+                              _d, '' if reg == 0 else ' lacking a S / E / N / W neighbour', 1 << bits, 1 << bits, 1 << bits)))
 PROPS['C19'] = dict(
     inject=[dict(host='src/nested/mod.rs', mod='verif_c19', parts=['props/c19.rs', 'kani/c19.rs'])],
     harnesses=_c19,
     functions=['Layer::bilinear_interpolation', 'Layer::neighbours', 'MainWindMap::get'],
-    bounds={'quick': 'depths 0, 1, 2, 3, 29: every cell x the 257 x 257 lattice of offsets (incl. 0, 0.5, 1); separately restricted to the cells lacking a cardinal neighbour', 'thorough': 'adds depths 4, 8, 16, 17, 28 (other depths: tier extended)'},
-    outside='offsets that are not multiples of 1/256 (arbitrary doubles make the 32 weight products of the code a 45 M clause instance); the computation of the cell and '
+    bounds={'quick': 'depths 0, 1, 2, 29: every cell x the 17 x 17 lattice of offsets k/16 (incl. 0, 0.5, 1); separately restricted to the cells lacking a cardinal neighbour', 'thorough': 'adds depths 3, 8, 16, 17, 28 on the 17 x 17 lattice and depths 0, 1 on the 257 x 257 lattice (other depths: tier extended)'},
+    outside='offsets that are not multiples of 1/16 (quick) / 1/256 (thorough) (arbitrary doubles make the 32 weight products of the code a 45 M clause instance); the computation of the cell and '
             'offsets from the position (hash_with_dxdy, decided by C03)',
     assumptions=['cut at Layer::hash_with_dxdy: it returns the cell number and offsets chosen by the harness (every cell in range, offsets in [0, 1] on the 1/256 lattice)',
                  'Layer::neighbours is the adjacency oracle (decided against plane geometry by C04)'],
@@ -803,7 +826,7 @@ _KEEP_T = {
     'C16': r'.',
     'C17': r'.',
     'C18': r'.',
-    'C19': r'_d(4|8|16|17|28)$',
+    'C19': r'_d(3|8|16|17|28)$|_d(0|1)_fine$',
 }
 for _pid, _p in PROPS.items():
     _rx = _re.compile(_KEEP_T.get(_pid, '.'))
